@@ -1359,6 +1359,15 @@ class TestResponse(Response):
         return self.get_data(as_text=True)
 
 
+def _host_to_ascii(host: str) -> str:
+    host = host.lower()
+
+    try:
+        return host.encode("idna").decode("ascii")
+    except UnicodeError:
+        return host
+
+
 @dataclasses.dataclass
 class Cookie:
     """A cookie key, value, and parameters.
@@ -1410,12 +1419,16 @@ class Cookie:
     """The ``SameSite`` parameter."""
 
     def _matches_request(self, server_name: str, path: str) -> bool:
+        # Host names compare case-insensitively and in their ASCII form. The
+        # Domain parameter is IDNA encoded, the request host may not be.
+        server_name = _host_to_ascii(server_name)
+        domain = _host_to_ascii(self.domain)
         return (
-            server_name == self.domain
+            server_name == domain
             or (
                 not self.origin_only
-                and server_name.endswith(self.domain)
-                and server_name[: -len(self.domain)].endswith(".")
+                and server_name.endswith(domain)
+                and server_name[: -len(domain)].endswith(".")
             )
         ) and (
             path == self.path
